@@ -60,6 +60,11 @@ fn health(c: &BTreeMap<String, u64>, _thorough: bool) -> Result<(), String> {
         "miss:expired-refetch",
         "miss:fresh-after-change",
         "miss:cd-partition",
+        "hit:ext-rcode",
+        "hit:ext-rcode:low-nibble-0-with-answer",
+        "hit:ext-rcode:low-nibble-3",
+        "hit:ext-rcode:low-nibble-other",
+        "miss:ext-rcode-refetched-after-misc-bound",
         "cfg:extreme",
         "cfg:default-ctor",
     ];
@@ -193,6 +198,8 @@ struct Info {
     bound: Option<Bound>,
     cname: bool,
     tc: bool,
+    /// full rcode of the source when it is an extended one (>= 16)
+    ext_rcode: Option<(u16, bool)>,
     src: usize,
     elapsed_ms: u64,
 }
@@ -309,6 +316,9 @@ fn explain_content(
         return fail(3, format!("{p}:tc-differs"), format!("returned tc={} U{idx} tc={}", rm.tc(), um.tc()));
     }
     info.tc = um.tc();
+    if um.rcode >= 16 {
+        info.ext_rcode = Some((um.rcode, um.recs.iter().any(|x| x.sec == 1 && x.rtype == um.qtype)));
+    }
     // records: everything that is not a DNSSEC extra must be there exactly;
     // DNSSEC extras must be a sub-multiset, and complete for a DO query
     let mut rsorted: Vec<&PRec> = rm.recs.iter().collect();
@@ -811,6 +821,15 @@ async fn run_async(case: &Case, eff: &Eff, trace: &mut Vec<String>, stats: &mut 
                     if q.dok {
                         cls("hit:do-query", stats);
                     }
+                    if let Some((rc, with_answer)) = info.ext_rcode {
+                        cls("hit:ext-rcode", stats);
+                        match rc & 0xf {
+                            0 if with_answer => cls("hit:ext-rcode:low-nibble-0-with-answer", stats),
+                            0 => cls("hit:ext-rcode:low-nibble-0", stats),
+                            3 => cls("hit:ext-rcode:low-nibble-3", stats),
+                            _ => cls("hit:ext-rcode:low-nibble-other", stats),
+                        }
+                    }
                 } else {
                     stats.misses += 1;
                     cls("miss", stats);
@@ -831,6 +850,23 @@ async fn run_async(case: &Case, eff: &Eff, trace: &mut Vec<String>, stats: &mut 
                         }
                         if (u.rd || !q.rd) && (u.dok || !q.dok) && (u.adeff() || !q.adeff()) {
                             if t0.saturating_sub(e.log.t_ms) > validity_ms(e, eff) {
+                                if let Some(pm) = &e.parsed {
+                                    // expired only because of misc_error_duration: a cache that
+                                    // classified by the header nibble would still serve it
+                                    let age = t0.saturating_sub(e.log.t_ms);
+                                    let mut other = eff.max_validity_ms;
+                                    for r in &pm.recs {
+                                        other = other.min(r.ttl as u64 * 1000);
+                                    }
+                                    if pm.rcode & 0xf == 3 {
+                                        other = other.min(eff.nx_ms);
+                                    }
+                                    let nib = pm.rcode & 0xf;
+                                    let cacheable_by_nibble = nib != 0 || pm.recs.iter().any(|x| x.sec == 1 && x.rtype == pm.qtype);
+                                    if pm.rcode >= 16 && age <= other && cacheable_by_nibble && (nib == 0 || nib == 3) && (!pm.tc() || eff.trunc) {
+                                        cls("miss:ext-rcode-refetched-after-misc-bound", stats);
+                                    }
+                                }
                                 earlier_same = true;
                                 if e.log.resp != entries[me].log.resp {
                                     changed = true;
